@@ -222,6 +222,60 @@ def StoresWF (stores : List (Bytes × Store)) : Prop :=
   ∀ s ∈ stores, s.1.length < 2 ^ 64 ∧ ∀ kv ∈ s.2, kv.1.length < 2 ^ 64
 
 
+theorem runOps_append (xs ys : List ProofOp) :
+    ∀ (keys : List Bytes) (arg : Bytes),
+      runOps H (xs ++ ys) keys arg = (runOps H xs keys arg).bind (fun p => runOps H ys p.1 p.2) := by
+  induction xs with
+  | nil => intro keys arg; simp [runOps]
+  | cons o rest ih =>
+    intro keys arg
+    simp only [List.cons_append, runOps]
+    split
+    · simp
+    · split
+      · simp
+      · exact ih _ _
+
+/-- one step of the loop -/
+theorem runOps_single (o : ProofOp) (keys : List Bytes) (arg : Bytes) (keys' : List Bytes) (out : Bytes)
+    (h : runOps H [o] keys arg = some (keys', out)) :
+    runOp H o arg = some out ∧
+      ((o.key = [] ∧ keys' = keys) ∨ (o.key ≠ [] ∧ keys.getLast? = some o.key ∧ keys' = keys.dropLast)) := by
+  simp only [runOps] at h
+  by_cases hk : o.key = []
+  · simp only [hk, ne_eq, not_true_eq_false, if_false] at h
+    cases hr : runOp H o arg with
+    | none => simp [hr] at h
+    | some r =>
+      simp only [hr, Option.some.injEq, Prod.mk.injEq] at h
+      exact ⟨by rw [h.2], Or.inl ⟨hk, h.1.symm⟩⟩
+  · simp only [hk, ne_eq, not_false_eq_true, if_true] at h
+    cases hl : keys.getLast? with
+    | none => simp [hl] at h
+    | some k =>
+      simp only [hl] at h
+      by_cases hkk : k = o.key
+      · simp only [hkk, not_true_eq_false, if_false] at h
+        cases hr : runOp H o arg with
+        | none => simp [hr] at h
+        | some r =>
+          simp only [hr, Option.some.injEq, Prod.mk.injEq] at h
+          exact ⟨by rw [h.2], Or.inr ⟨hk, by rw [hkk], h.1.symm⟩⟩
+      · simp [hkk] at h
+
+/-- the output of a `ValueOp` has the length of a hash -/
+theorem runOp_len (L : Nat) (hlen : ∀ x, (H x).length = L) (o : ProofOp) (arg out : Bytes)
+    (h : runOp H o arg = some out) : out.length = L := by
+  unfold runOp at h
+  split at h; · cases h
+  rename_i hl
+  have hl' : o.proof.leafHash.length = L := by
+    have : kvLeaf H o.key arg = o.proof.leafHash := by simpa using hl
+    rw [← this]; simp [kvLeaf, leafHash, hlen]
+  unfold computeRoot at h
+  split at h; · cases h
+  exact fromAunts_len H L hlen _ _ _ _ _ _ hl' h
+
 /-- operators that all carry a key consume one key-path element each -/
 theorem runOps_keyed_length :
     ∀ (ops : List ProofOp) (keys : List Bytes) (arg : Bytes) (keys' : List Bytes) (out : Bytes),
